@@ -18,32 +18,39 @@ PLAN = {
     "C18": {"quick": [("dyn_w3", False), ("prefix_F3_dyn", True)], "thorough": [("dyn_w4", False), ("prefix_F3_dyn", True)]},
     "C01": {"quick": [("dyn_w3", False)], "thorough": [("dyn_w4", False), ("fixed_w4", False)]},
     "C13": {"quick": [("prefix_F8_fixed", True)], "thorough": [("fixed_w4", False), ("prefix_F8_fixed", True)]},
+    # design-level hash model (MCHash.tla): the fixed design passes, the two broken designs are refuted
+    "C10": {"quick": [("MCHash:sig", False), ("MCHash:len", True), ("MCHash:raw", True)],
+            "thorough": [("MCHash:sig", False), ("MCHash:len", True), ("MCHash:raw", True)]},
 }
 
 
 def run(prop, tier, workdir):
     out = []
     for cfgname, expect_violation in PLAN.get(prop, {}).get(tier, []):
-        cfg = os.path.join(checklib.SPEC, "cfg", "Store_%s.cfg" % cfgname)
-        md = os.path.join(workdir, "store-%s.md" % cfgname)
+        module, inv = "Store", "SInv"
+        if ":" in cfgname:
+            module, cfgname = cfgname.split(":")
+            inv = "HashConsistent"
+        cfg = os.path.join(checklib.SPEC, "cfg", "%s_%s.cfg" % (module, cfgname))
+        md = os.path.join(workdir, "%s-%s.md" % (module, cfgname))
         shutil.rmtree(md, ignore_errors=True)
-        cmd = checklib.tlc_cmd(8, "6g") + ["-metadir", md, "-cleanup", "-noGenerateSpecTE", "-config", cfg, "Store.tla"]
+        cmd = checklib.tlc_cmd(8, "6g") + ["-metadir", md, "-cleanup", "-noGenerateSpecTE", "-config", cfg, module + ".tla"]
         t0 = time.time()
         r = subprocess.run(cmd, cwd=checklib.SPEC, stdout=subprocess.PIPE, stderr=subprocess.STDOUT, text=True, timeout=3600)
         shutil.rmtree(md, ignore_errors=True)
-        res = {"name": "Store/%s (Layer 2%s)" % (cfgname, ", pre-fix switch: TLC must find the counterexample" if expect_violation else ", complete graph"),
+        res = {"name": "%s/%s (%s)" % (module, cfgname, "broken design / pre-fix switch: TLC must find the counterexample" if expect_violation else "complete graph"),
                "states": 0, "transitions": 0, "violations": [], "tool_errors": [], "replayed": 0, "replay_execs": 0, "samples": [],
                "distinct": 0, "exhaustive": not expect_violation, "emitted": 0}
         m = re.search(r"(\d+) states generated, (\d+) distinct states found", r.stdout)
         if m:
             res["transitions"], res["states"] = int(m.group(1)), int(m.group(2))
         passed = "Model checking completed. No error has been found." in r.stdout
-        violated = "Invariant SInv is violated" in r.stdout or "does not refine" in r.stdout
+        violated = ("Invariant %s is violated" % inv) in r.stdout or "does not refine" in r.stdout
         if expect_violation and not violated:
-            res["tool_errors"].append("Store/%s: the pre-fix design was expected to violate Canonical/ObsSound but TLC found nothing (insensitive specification)" % cfgname)
+            res["tool_errors"].append("%s: the pre-fix design was expected to violate Canonical/ObsSound but TLC found nothing (insensitive specification)" % res["name"])
         if not expect_violation and not passed:
             tail = "\n".join(l for l in r.stdout.splitlines() if not re.match(r"^(Parsing|Semantic|Linting|Picked up)", l))[-2500:]
-            res["tool_errors"].append("Store/%s did not pass (specification-level):\n%s" % (cfgname, tail))
+            res["tool_errors"].append("%s did not pass (specification-level):\n%s" % (res["name"], tail))
         checklib.log("[mc] %s: %d states, %d transitions, %s, %.1fs" % (res["name"], res["states"], res["transitions"],
                                                                       "counterexample found" if violated else "no error", time.time() - t0))
         out.append(res)
